@@ -870,8 +870,10 @@ func checkContainment(e *extInfo, c c02Case, data []byte) error {
 			return fmt.Errorf("containment: status of %s changed from %s to %s (%s) by a bad file for %s at %s", h.Extractor, statusName(before.Statuses[h.Extractor]), statusName(after.Statuses[h.Extractor]), after.Reasons[h.Extractor], c.Extractor, c.Path)
 		}
 	}
-	if st := after.Statuses[c.Extractor]; st != plugin.ScanStatusFailed && st != plugin.ScanStatusPartiallySucceeded {
-		return fmt.Errorf("containment: Extract of %s fails on %s but the scan reports the extractor's status as %s", c.Extractor, c.Path, statusName(st))
+	// the owner's status must report the failure of its Extract call in THIS scan
+	st := after.Statuses[c.Extractor]
+	if after.ExtractErrs[c.Extractor] > before.ExtractErrs[c.Extractor] && st != plugin.ScanStatusFailed && st != plugin.ScanStatusPartiallySucceeded {
+		return fmt.Errorf("containment: Extract of %s returned an error for %s during the scan but the scan reports the extractor's status as %s", c.Extractor, c.Path, statusName(st))
 	}
 	return nil
 }
